@@ -141,6 +141,21 @@ def run(ctx):
                                      {"op": "seg", "p": "c1", "hold": 0.5, "adopt_after": "late2", "nowait": True}, {"op": "sleep", "ms": 150}, {"op": "adopt", "p": "late", "ctx": "thread"},
                                      {"op": "sleep", "ms": 500}, {"op": "wait_start", "p": "late"}, {"op": "wait_start", "p": "late2"}, {"op": "adopt", "p": "late3", "ctx": "payload:c1"}, {"op": "wait_start", "p": "late3"},
                                      {"op": "step", "p": "c1"}, {"op": "polls", "n": 2}], "shape": "targeted-outside-adopt-while-busy"})
+    # ONE callable object adopted twice from outside threads while the flavour's thread is busy
+    # (both hand-overs are pending at once): two payloads, each started once
+    for f in ("trio", "asyncio"):
+        extra.append({"seed": ctx.seed, "jitter": 0.0, "payloads": {"c1": {"flavour": f}, "p1": {"flavour": f, "same_callable": "g"}, "p2": {"flavour": f, "same_callable": "g"}, "p3": {"flavour": "threading", "same_callable": "h"}, "p4": {"flavour": "threading", "same_callable": "h"}},
+                      "script": [{"op": "adopt", "p": "c1"}, {"op": "accept"}, {"op": "wait_running"}, {"op": "wait_start", "p": "c1"},
+                                 {"op": "seg", "p": "c1", "hold": 0.4, "nowait": True}, {"op": "sleep", "ms": 100}, {"op": "adopt", "p": "p1", "ctx": "thread"}, {"op": "adopt", "p": "p2", "ctx": "thread"},
+                                 {"op": "adopt", "p": "p3", "ctx": "thread"}, {"op": "adopt", "p": "p4", "ctx": "payload:c1"}, {"op": "wait_start", "p": "p1"}, {"op": "wait_start", "p": "p2"}, {"op": "wait_start", "p": "p3"}, {"op": "wait_start", "p": "p4"},
+                                 {"op": "step", "p": "p1"}, {"op": "step", "p": "p2"}, {"op": "polls", "n": 2}], "shape": "targeted-one-callable-adopted-twice"})
+    # services of classes derived from a service class: with a constructor of their own that
+    # does not call the parent's, or declared a service once more
+    for sub in ("nosuper", "redecorated"):
+        for f in scen.FLAVS:
+            extra.append({"seed": ctx.seed, "jitter": 0.0, "payloads": {"c1": {"flavour": "asyncio"}}, "services": {"s1": {"flavour": f, "sub": sub}, "s2": {"flavour": f, "sub": sub}},
+                          "script": [{"op": "new_service", "s": "s1", "ctx": "driver"}, {"op": "adopt", "p": "c1"}, {"op": "accept"}, {"op": "wait_running"}, {"op": "wait_start", "p": "c1"}, {"op": "wait_start", "p": "s1"},
+                                     {"op": "new_service", "s": "s2", "ctx": "thread"}, {"op": "wait_start", "p": "s2"}, {"op": "step", "p": "s1"}, {"op": "step", "p": "s2"}, {"op": "polls", "n": 3}], "shape": "targeted-derived-service-classes"})
     # a burst of adoptions from inside one synchronous step of a coroutine payload (nothing
     # can drain a hand-over buffer meanwhile): "for all numbers of payloads"
     for f, n in (("trio", 270), ("asyncio", 60)):
